@@ -41,8 +41,13 @@ func (fx *Facts) retVal(ap *APath, i int) ssa.Value {
 			if x.Op != token.MUL {
 				return v
 			}
-			cell, ok := x.X.(*ssa.Alloc)
-			if !ok {
+			var cell ssa.Value
+			switch c := x.X.(type) {
+			case *ssa.Alloc:
+				cell = c
+			case *ssa.FreeVar:
+				cell = c // a captured variable: the last value this closure stored into it on the path
+			default:
 				return v
 			}
 			var last ssa.Value
@@ -50,8 +55,14 @@ func (fx *Facts) retVal(ap *APath, i int) ssa.Value {
 				if in == ssa.Instruction(x) {
 					break
 				}
-				if st, ok := in.(*ssa.Store); ok && st.Addr == ssa.Value(cell) {
+				if st, ok := in.(*ssa.Store); ok && st.Addr == cell {
 					last = st.Val
+				}
+				if _, isFV := cell.(*ssa.FreeVar); isFV {
+					// a call made after the store may re-assign a captured variable (another closure sharing it)
+					if _, isCall := in.(*ssa.Call); isCall && last != nil && !isErrorType(x.Type()) {
+						last = nil
+					}
 				}
 			}
 			if last == nil {
